@@ -102,7 +102,7 @@ theorem intOp_pure (op x y sp) : ∀ st, intOp op x y sp st = ((intOp op x y sp 
 
 theorem floatOp_pure (op x y sp) : ∀ st, floatOp op x y sp st = ((floatOp op x y sp default).1, st) := by
   intro st
-  cases op <;> simp only [floatOp] <;> (try rfl) <;> (split <;> rfl)
+  cases op <;> simp only [floatOp] <;> (try rfl) <;> first | (split <;> rfl) | (cases goPow x y <;> rfl)
 
 theorem boolOp_pure (op x y) : ∀ st, boolOp op x y st = ((boolOp op x y default).1, st) := by
   intro st
@@ -166,6 +166,7 @@ def okKinds (op : InfixOp) (l r : Val) : Bool :=
   match op, l, r with
   | .eq, _, _ => true
   | _, .int _, .int _ => true
+  | .pow, .float _, .float _ => true
   | .pow, _, _ => false
   | .add, .float _, .float _ | .sub, .float _, .float _ | .mul, .float _, .float _
   | .div, .float _, .float _ | .lt, .float _, .float _ | .gt, .float _, .float _
